@@ -114,8 +114,8 @@ class Subset(Profile):
             op["element"] = rng.choice(KINDS)
             op["center"] = [round(rng.uniform(-180.0, 180.0), 3), round(rng.uniform(-85.0, 85.0), 3)]
             op["center_elem"] = rng.randrange(10**6) if rng.random() < 0.5 else None  # centre near an element of the mesh
-            op["r"] = rng.choice([3.0, 10.0, 25.0, 60.0])
-            op["k"] = rng.choice([1, 2, 3, 5, 8])
+            op["r"] = rng.choice([3.0, 10.0, 25.0, 60.0, 180.0, 200.0])
+            op["k"] = rng.choice([1, 2, 3, 5, 8, "n", "n"])
             op["cart"] = rng.random() < 0.3
         else:
             op["lat"] = round(rng.uniform(-80.0, 80.0), 3)
@@ -141,9 +141,21 @@ class Subset(Profile):
         src = gen_source(rng)
         ops = []
         for _ in range(rng.choice([0, 0, 1, 2, 4, 6])):
-            ops.append({"op": "derive", "name": rng.choice(SRC_DERIVE)})
+            if rng.random() < 0.25:
+                # a tree request on the source: the subset accessors reuse the cached wrapper
+                ops.append({"op": "derive", "name": "tree", "type": rng.choice(["ball", "ball", "kd"]), "coords": rng.choice(KINDS)})
+            else:
+                ops.append({"op": "derive", "name": rng.choice(SRC_DERIVE)})
         for s in range(rng.randint(1, cfg["max_sel"])):
-            ops.append(self.gen_select(rng, cfg, [o["name"] for o in ops if o["op"] == "derive"]))
+            sel = self.gen_select(rng, cfg, [o["name"] for o in ops if o["op"] == "derive"])
+            if sel["how"] in ("knn", "bcircle") and rng.random() < 0.4:
+                # the accessor will come BACK to a kind the cached tree wrapper served before
+                # another kind (A -> B -> A on one wrapper)
+                ttype = "kd" if sel.get("cart") else "ball"
+                other = rng.choice([k for k in KINDS if k != sel["element"]])
+                ops.append({"op": "derive", "name": "tree", "type": ttype, "coords": sel["element"]})
+                ops.append({"op": "derive", "name": "tree", "type": ttype, "coords": other})
+            ops.append(sel)
             if rng.random() < 0.4:
                 ops.append({"op": "derive", "name": rng.choice(SRC_DERIVE)})
         return {"sources": {"g0": src}, "ops": ops}
@@ -161,7 +173,7 @@ class Subset(Profile):
     def op_class(self, op):
         if op["op"] == "select":
             return f"select:{op['how']}:{op.get('element', '')}:{op.get('api')}"
-        return "derive:" + op["name"]
+        return "derive:" + op["name"] + (":" + op["type"] + ":" + op["coords"] if op["name"] == "tree" else "")
 
     def begin(self, W):
         W.twin = None
@@ -179,7 +191,10 @@ class Subset(Profile):
         g = W.grid("g0")
         if op["op"] == "derive":
             try:
-                getattr(g, op["name"])
+                if op["name"] == "tree":
+                    (g.get_ball_tree if op["type"] == "ball" else g.get_kd_tree)(coordinates=op["coords"])
+                else:
+                    getattr(g, op["name"])
                 out = ("derived",)
             except Exception as e:
                 out = ("exc", type(e).__name__)
@@ -424,7 +439,7 @@ class Subset(Profile):
                 must = self.faces_of_elements(W, el, np.nonzero(sure)[0])
                 may = self.faces_of_elements(W, el, np.nonzero(maybe)[0])
                 return must, may, None, (lambda o, isda: o.subset.bounding_circle(center, r, element=el))
-            k = max(1, min(op["k"], len(d)))
+            k = len(d) if op["k"] == "n" else max(1, min(int(op["k"]), len(d)))
             ds_ = np.sort(d)
             kth = ds_[k - 1]
             sure = d < kth - 1e-7
